@@ -90,13 +90,30 @@ class CacheHarness(Harness):
                 self._mk(td)[cpv] = self._entry((c["val"] + 1) % len(VALUES), (c["ecl"] + 1) % len(ECLASSES), 1000)
             db = self._mk(td)
             real_open, real_rename = open, os.rename
+            instant = {}
+
+            def view():
+                """what a reader process sees right now (nothing of the writer has been closed or flushed for it)"""
+                rd = self._mk(td)
+                try:
+                    g = dict(rd[cpv])
+                    g = {k: (list(map(lambda t: [t[0], [list(x) for x in t[1]]], v)) if k == "_eclasses_" else v) for k, v in g.items()}
+                except KeyError:
+                    g = "KeyError"
+                except Exception as e:
+                    g = "exception " + type(e).__name__
+                instant["got"], instant["keys"] = g, sorted(rd.keys())
+
+            def die():
+                view()
+                raise Crash()
 
             def my_open(path, *a, **k):
                 if crash == "before-open":
-                    raise Crash()
+                    die()
                 f = real_open(path, *a, **k)
                 if crash == "after-open":
-                    raise Crash()
+                    die()
                 return f
 
             class OsProxy:
@@ -106,16 +123,16 @@ class CacheHarness(Harness):
                 @staticmethod
                 def rename(a, b):
                     if crash == "after-access":
-                        raise Crash()
+                        die()
                     real_rename(a, b)
                     if crash == "after-rename":
-                        raise Crash()
+                        die()
 
             real_access = db._ensure_access
 
             def my_access(*a, **k):
                 if crash == "after-write":
-                    raise Crash()
+                    die()
                 return real_access(*a, **k)
 
             db._ensure_access = my_access
@@ -134,8 +151,8 @@ class CacheHarness(Harness):
                 got = "KeyError"
             except Exception as e:
                 got = "exception " + type(e).__name__
-            out["got"] = got
-            out["keys"] = sorted(rd.keys())
+            out["got"] = instant.get("got", got)
+            out["keys"] = instant.get("keys", sorted(rd.keys()))
             norm = lambda d: {k: (list(map(lambda t: [t[0], [list(x) for x in t[1]]], v)) if k == "_eclasses_" else v) for k, v in d.items()}
             out["new"] = norm(self._expect(c["val"], c["ecl"], 2000))
             out["prev"] = norm(self._expect((c["val"] + 1) % len(VALUES), (c["ecl"] + 1) % len(ECLASSES), 1000)) if c["old"] else "KeyError"
